@@ -10,6 +10,7 @@ package py
 
 import (
 	"fmt"
+	"math/big"
 	"reflect"
 	"strings"
 )
@@ -126,10 +127,44 @@ func IndexInt(a Object) (int, error) {
 	return intI, nil
 }
 
+// As IndexInt but an integer which doesn't fit into an int is clipped
+// to the largest or the smallest int instead of raising an error
+//
+// This is how the members of a slice are converted
+func IndexIntClip(a Object) (int, error) {
+	const maxInt = int(^uint(0) >> 1)
+	const minInt = -maxInt - 1
+	if b, ok := a.(*BigInt); ok {
+		if _, err := b.Int(); err != nil {
+			if (*big.Int)(b).Sign() < 0 {
+				return minInt, nil
+			}
+			return maxInt, nil
+		}
+	}
+	i, err := Index(a)
+	if err != nil {
+		return 0, err
+	}
+	if i > Int(maxInt) {
+		return maxInt, nil
+	}
+	if i < Int(minInt) {
+		return minInt, nil
+	}
+	return int(i), nil
+}
+
 // As IndexInt but if index is -ve addresses it from the end
 //
 // If index is out of range throws IndexError
 func IndexIntCheck(a Object, max int) (int, error) {
+	if b, ok := a.(*BigInt); ok {
+		// Too big for an Int is out of range for any sequence
+		if _, err := b.Int(); err != nil {
+			return 0, ExceptionNewf(IndexError, "cannot fit 'int' into an index-sized integer")
+		}
+	}
 	i, err := IndexInt(a)
 	if err != nil {
 		return 0, err
